@@ -42,7 +42,7 @@ package dcmi
 //@ func (*getDCMICapabilitiesInfoCmd).Operation
 //@ props C06 C11
 //@ assigns nothing
-//@ ensures [C06.op-getdcmicapabilitiesinfocmd] !isnil(result) && result.Function == 0x2c && result.Body == 0xdc && result.Command == 0x01 && result.Enterprise == 0
+//@ ensures [C06+C11.op-getdcmicapabilitiesinfocmd] !isnil(result) && result.Function == 0x2c && result.Body == 0xdc && result.Command == 0x01 && result.Enterprise == 0
 
 //@ func (*getDCMICapabilitiesInfoCmd).RemoteLUN
 //@ props C06
@@ -57,7 +57,7 @@ package dcmi
 //@ func (*GetPowerReadingCmd).Operation
 //@ props C06 C11
 //@ assigns nothing
-//@ ensures [C06.op-getpowerreadingcmd] !isnil(result) && result.Function == 0x2c && result.Body == 0xdc && result.Command == 0x02 && result.Enterprise == 0
+//@ ensures [C06+C11.op-getpowerreadingcmd] !isnil(result) && result.Function == 0x2c && result.Body == 0xdc && result.Command == 0x02 && result.Enterprise == 0
 
 //@ func (*GetPowerReadingCmd).RemoteLUN
 //@ props C06
@@ -72,7 +72,7 @@ package dcmi
 //@ func (*GetDCMISensorInfoCmd).Operation
 //@ props C06 C11
 //@ assigns nothing
-//@ ensures [C06.op-getdcmisensorinfocmd] !isnil(result) && result.Function == 0x2c && result.Body == 0xdc && result.Command == 0x07 && result.Enterprise == 0
+//@ ensures [C06+C11.op-getdcmisensorinfocmd] !isnil(result) && result.Function == 0x2c && result.Body == 0xdc && result.Command == 0x07 && result.Enterprise == 0
 
 //@ func (*GetDCMISensorInfoCmd).RemoteLUN
 //@ props C06
